@@ -143,6 +143,34 @@ func genC03(g *Gen) error {
 	if err := c03LoopShape(g); err != nil {
 		return err
 	}
+	// ---- the level-compaction planner (model: OG.C03.Plan)
+	g.P("")
+	for _, f := range []struct{ rel, fn, lean string }{
+		{dir + "mms_tables.go", "MmsTables.mmsPlan", "src_mmsPlan"},
+		{dir + "mms_tables.go", "MmsTables.genCompactPlan", "src_genCompactPlan"},
+		{dir + "mms_tables.go", "MmsTables.getMmsPlan", "src_getMmsPlan"},
+		{dir + "mms_tables.go", "levelSequenceEqual", "src_levelSequenceEqual"},
+	} {
+		fd, err := g.Func(f.rel, f.fn)
+		if err != nil {
+			return err
+		}
+		g.P("def %s : String := %s", f.lean, leanStr(c03NoLog(g, fd.Body)))
+	}
+	// the name of a compaction's output: the first two statements of MmsTables.compact
+	fd, err = g.Func(dir+"compact.go", "MmsTables.compact")
+	if err != nil {
+		return err
+	}
+	if len(fd.Body.List) < 2 {
+		return fmt.Errorf("MmsTables.compact: body too short")
+	}
+	g.P("def src_compactOutputName : String := %s", leanStr(g.Src(fd.Body.List[0])+" ; "+g.Src(fd.Body.List[1])))
+	v, err := g.Const(dir+"compact.go", "LeveLMinGroupFiles")
+	if err != nil {
+		return err
+	}
+	g.P("def levelMinGroupFiles : String := %s", leanStr(v))
 	g.Footer()
 	return nil
 }
